@@ -245,6 +245,9 @@ def boundary_cfgs():
         # once conditional, once unconditional in the middle
         ("ut", 0, [[("d", ex)], [("d", [b"com"])]], [(0, 0, 0, "-"), (1, 0, 0, 0), ("-", 0, 0, 1)]),
         ("u", 0, [[("d", ex)]], [(0, 1, 0, 0), ("-", 0, 0, "-"), ("-", 0, 0, 0)]),
+        # three domain sets sharing entries (hence files): the later sets must contain the shared entries too
+        ("ut", 0, [[("d", ex), ("f", [b"foo"])], [("d", ex), ("d", [b"net"])], [("f", [b"foo"]), ("d", ex), ("d", [b"org"])]],
+         [(1, 0, 3, "-"), (2, 0, 0, 1), (0, 0, 0, 0)]),
     ]
 
 
